@@ -54,7 +54,8 @@ def main():
                 d = place.group(1).strip("`'\"") if place else touched[0]
                 dst = os.path.join(wt, d, "zz_seed_demo%s_test.go" % n)
                 shutil.copy(demo, dst)
-                rc, o = sh("go test -count=1 -run 'Demo|Seed' ./%s/ 2>&1 | tail -25" % d, wt, timeout=900)
+                names = re.findall(r"^func (Test\w+)\(", open(demo).read(), re.M)
+                rc, o = sh("go test -count=1 -run '^(%s)$' ./%s/ 2>&1 | tail -25" % ("|".join(names) or "Demo", d), wt, timeout=900)
                 os.remove(dst)
                 return rc, o
             if os.path.isdir(demo_dir):
